@@ -381,7 +381,7 @@ func RunHistoryB(dir string, c Cfg, id string, next func() (Call, bool), wantTre
 			st.Obs = append(st.Obs, ItemLines(items, e.Cfg.PlainHeader)...)
 			st.Obs = append(st.Obs, e.RootLine(), fmt.Sprintf("blocks\t%d", blocks))
 			prevBlocks = blocks
-			if wantTree {
+			if wantTree && len(s.Streaming) == 0 {
 				if !s.Guard(func() {
 					t, terr := s.TreeLines()
 					if terr != nil {
@@ -396,7 +396,7 @@ func RunHistoryB(dir string, c Cfg, id string, next func() (Call, bool), wantTre
 		}
 		// a call may return normally and still leave the drive locked (the watchdog then fires
 		// on the observation, not on the call): the history ends here as well
-		if after != nil && !s.Wedged {
+		if after != nil && !s.Wedged && len(s.Streaming) == 0 {
 			s.Guard(func() { after(i, s, &st) })
 		}
 		if !s.Wedged {
